@@ -11,7 +11,7 @@ from . import rules_select as S
 from . import rules_switch as W
 
 RULES = {
-    "R-KC": A.rule_KC, "R-VA": A.rule_VA, "R-XA": A.rule_XA, "R-OA": A.rule_OA,
+    "R-KC": A.rule_KC, "R-VA": A.rule_VA, "R-XA": A.rule_XA, "R-OA": A.rule_OA, "R-WI": A.rule_WI,
     "R-EV": A.rule_EV, "R-EG": A.rule_EG, "R-SL": A.rule_SL,
     "R-FP": C.rule_FP, "R-CP": C.rule_CP, "R-MC": C.rule_MC, "R-CE": C.rule_CE,
     "R-OS": C.rule_OS, "R-RK": C.rule_RK,
@@ -25,7 +25,7 @@ RULES = {
     "R-SO": S.rule_SO, "R-OP": S.rule_OP, "R-EO": S.rule_EO, "R-RG": S.rule_RG,
     "R-ID": S.rule_ID, "R-EH": S.rule_EH, "R-CH": S.rule_CH, "R-CD": S.rule_CD,
     "R-VP": W.rule_VP, "R-SH": W.rule_SH, "R-DH": W.rule_DH, "R-L1": W.rule_L1,
-    "R-WR": W.rule_WR, "R-RQ": W.rule_RQ, "R-HD": W.rule_HD, "R-MF": W.rule_MF,
+    "R-WR": W.rule_WR, "R-RQ": W.rule_RQ, "R-HD": W.rule_HD, "R-MF": W.rule_MF, "R-IS": W.rule_IS, "R-PK": W.rule_PK,
     "R-PL": W.rule_PL, "R-PF": W.rule_PF, "R-GA": W.rule_GA, "R-GS": W.rule_GS, "R-SK": W.rule_SK,
 }
 
@@ -44,17 +44,19 @@ def _p(rules, explanation, undecided, filters=None, floors=None, extra_assumptio
 
 
 PROPS = {
-    "C01": _p(["R-KC", "R-FP", "R-CP", "R-MC", "R-DC", "R-OA", "R-RK", "R-OS", "R-PO", "R-MX", "R-OP", "R-GS"],
+    "C01": _p(["R-KC", "R-FP", "R-CP", "R-MC", "R-DC", "R-OA", "R-RK", "R-OS", "R-PO", "R-MX", "R-OP", "R-GS", "R-WI", "R-IS"],
               "Decides the key-set mechanism behind cache transparency, not values: every child that any evaluate() path of any of the "
               "node classes consults is keyed on the same path of keys() (through constructed wrapper terms); the fingerprint reads "
               "nothing but sorted keyed pairs; Cached uses one (evaluatable, options, cache) triple for exists/get/set/keys and stores "
               "only a successfully computed value; MemoryCache indexes by the same fingerprint in get/set/exists; the dataset nests "
               "default-options > pre-set options > cached; inspection methods pass the same options form as evaluate; container values "
-              "whose templates resolve() follows are inspected by Option.keys; no evaluate returns a one-shot iterator.",
+              "whose templates resolve() follows are inspected by Option.keys; no evaluate returns a one-shot iterator; a child evaluated once "
+              "per element of a collection (every Map combination) is keyed once per element; no operation keeps an options-dependent "
+              "result on the shared expression object.",
               "whether stored values equal uncached evaluation for concrete graphs; prefix relations between run-time key strings "
               "(a whole-section key partly supplied by a pre-set dictionary, finding F13); history effects",
-              floors={"R-KC": 30, "R-OA": 80}, filters={"R-OP": [":iterates"]}),
-    "C02": _p(["R-FP", "R-PO", "R-OA", "R-DC", "R-EO", "R-CP", "R-MC", "R-CW", "R-SK"],
+              floors={"R-KC": 30, "R-OA": 80}, filters={"R-OP": [":iterates"], "R-WI": [":keys:"]}),
+    "C02": _p(["R-FP", "R-PO", "R-OA", "R-DC", "R-EO", "R-CP", "R-MC", "R-CW", "R-SK", "R-IS"],
               "Decides the structural conditions for effective memoization: the fingerprint depends on keys(options) only (extra or "
               "re-ordered top-level keys cannot split entries); WithOptions.keys removes keys fixed by the pre-set dictionary; "
               "Computation and Logged sit inside cached() so effects and logging happen only on a miss; the effect runs after the "
@@ -62,27 +64,29 @@ PROPS = {
               "the number of body executions for concrete DAGs, sharing inside one evaluation, behaviour of over-wide key sets",
               filters={"R-PO": ["WithOptions"], "R-EO": ["Computation", "CallbackEffect", "ChainedEffect"], "R-OA": ["WithOptions", "Cached", "Dataset"],
                        "R-MC": ["MemoryCache"], "R-CW": ["Dataset.overload"]}),
-    "C03": _p(["R-PO", "R-FP", "R-KC", "R-DK", "R-RK", "R-MF"],
+    "C03": _p(["R-PO", "R-FP", "R-KC", "R-DK", "R-RK", "R-MF", "R-WI", "R-OP"],
               "Decides: every component of every keys() result is a child's keys, an empty set, a literal key guarded by "
               "dotted_key_exists, or a filtered subset (WithOptions filter checked as a propositional formula on all 8 assignments); "
               "the fingerprint is a deterministic function of the sorted keyed pairs (no hash/id/set-order/environment dependence); "
               "nothing consulted is unkeyed; dotted keys are only looked up through dotted accessors.",
-              "restrict-and-re-evaluate equality on concrete dictionaries; F13"),
-    "C04": _p(["R-MS", "R-FV", "R-AB", "R-MP", "R-KN", "R-PU", "R-CC", "R-KC", "R-NK"],
+              "restrict-and-re-evaluate equality on concrete dictionaries; F13",
+              filters={"R-WI": [":keys:"], "R-OP": [":iterates"]}),
+    "C04": _p(["R-MS", "R-FV", "R-AB", "R-MP", "R-KN", "R-PU", "R-CC", "R-KC", "R-NK", "R-IS", "R-TK"],
               "Decides: the MISSING sentinel and looked-up values never flow into a truthiness test (presence is decided by "
               "KeyError/dotted_key_exists only); the default is consulted only on the key-absent branch behind `is not MISSING`; "
               "every returning path of Option.evaluate passes the returned value through the type request and the domain check, and "
               "a rejecting domain always raises; KeyNotFoundError names key and source; Option.set builds a fresh dictionary and "
               "mixes it over the input; re-keying an Option into a namespace carries every field.",
               "the values returned for particular dictionaries; list-index and prefix-key semantics inside confectioner",
-              filters={"R-CC": ["Option(", "Namespace(", "_Auto("], "R-PU": ["labrea.option", "labrea.template"], "R-KC": ["labrea.option.Option:"]}),
+              filters={"R-CC": ["Option(", "Namespace(", "_Auto("], "R-PU": ["labrea.option", "labrea.template"], "R-KC": ["labrea.option.Option:"],
+                       "R-IS": ["labrea.option.", "labrea.template."], "R-TK": ["Template.evaluate"]}),
     "C05": _p(["R-SO", "R-OP", "R-SL", "R-EO", "R-MX", "R-CD"],
               "Decides only the selection/order skeleton: switch indexes the table by the dispatch value, default exactly on dispatch "
               "failure or miss, SwitchError without default; case-when returns the result paired with the first condition that holds; "
               "coalesce returns at the first member that validates and evaluates; collections and the Map product iterate in stored "
               "order from one mapping; Apply/Bind/FunctionApplication apply the function to the evaluated parts.",
               "value equality with a reference interpreter for arbitrary expression trees (most of the property)",
-              filters={"R-MX": ["Map._iter", "WithOptions._options"], "R-CD": ["Switch", "Coalesce", "CaseWhen", "user callable"]}),
+              filters={"R-MX": ["Map._iter", "WithOptions.evaluate"], "R-CD": ["Switch", "Coalesce", "CaseWhen", "user callable"]}),
     "C06": _p(["R-CL", "R-SL", "R-AB", "R-EO", "R-EV", "R-SO"],
               "Decides: no evaluation op is reachable from construction/decoration/registration code (whole-program reachability "
               "over resolved callees); unselected switch/case/coalesce branches never receive an op; the default is touched only when "
@@ -97,7 +101,7 @@ PROPS = {
               "which implementation a given dictionary selects; cross-member consistency of values",
               filters={"R-KC": ["Switch", "Overloaded", "_DependsOn", "Dataset"], "R-CC": ["Dataset(", "Overloaded("], "R-SO": ["Switch"],
                        "R-DC": ["callback", "delegates"], "R-CD": ["Switch"], "R-LS": ["Overloaded", "_LOCKS"]}),
-    "C08": _p(["R-MX", "R-OA", "R-DC", "R-CC", "R-PU", "R-PO"],
+    "C08": _p(["R-MX", "R-OA", "R-DC", "R-CC", "R-PU", "R-PO", "R-IS"],
               "Decides: WithOptions mixes the pre-set dictionary as the winning ingredient exactly when forced; all four ops see the "
               "mixed dictionary; dataset decorator options end in the same wrappers in the right nesting; with_options / "
               "with_default_options mix new over stored and carry every other field; no function mutates an options dictionary it did "
@@ -110,27 +114,27 @@ PROPS = {
               "inspect every container kind whose embedded references resolve() follows; KeyError translations are chained.",
               "the substituted text",
               filters={"R-KC": ["Template", "Option"], "R-CH": ["Template", "Option"], "R-GS": ["labrea.template", "labrea.option"]}),
-    "C10": _p(["R-VA", "R-KC", "R-OA", "R-CP", "R-EV", "R-SL", "R-OP", "R-SH"],
+    "C10": _p(["R-VA", "R-KC", "R-OA", "R-CP", "R-EV", "R-SL", "R-OP", "R-SH", "R-WI", "R-MF"],
               "Decides: for every node class, every evaluate path's children are covered by one validate path; the same children are "
               "keyed; the same options form is passed; Cached.validate skips only on exists; inspection evaluates selectors only; "
               "unselected branches are not validated.",
               "agreement for a particular dictionary when it hinges on values",
-              filters={"R-CP": ["validate"], "R-OP": [":iterates"], "R-SH": ["labrea.cache."]}),
-    "C11": _p(["R-XA", "R-EG", "R-OA", "R-EV", "R-TK", "R-OP"],
+              filters={"R-CP": ["validate"], "R-OP": [":iterates"], "R-SH": ["labrea.cache."], "R-WI": [":validate:", ":keys:"], "R-MF": ["same member source", "one member enumeration"]}),
+    "C11": _p(["R-XA", "R-EG", "R-OA", "R-EV", "R-TK", "R-OP", "R-WI", "R-SO", "R-SL", "R-AB", "R-RK"],
               "Decides: every child keyed or validated is explained, path by path for equal selections; every evaluate/validate "
               "reached from an explain method lies inside a try that catches EvaluationError and raises "
               "InsufficientInformationError from it or falls back statically.",
               "the iterative fill-until-valid behaviour on concrete dictionaries",
-              filters={"R-TK": ["explain"], "R-OP": [":iterates"]}),
-    "C12": _p(["R-EH", "R-CH", "R-CD", "R-KN", "R-CP", "R-MC", "R-WR", "R-DC", "R-GS"],
+              filters={"R-TK": ["explain"], "R-OP": [":iterates"], "R-WI": [":explain:"], "R-SO": ["Coalesce"], "R-SL": [":explain:"], "R-AB": ["explain"], "R-RK": ["explain"]}),
+    "C12": _p(["R-EH", "R-CH", "R-CD", "R-KN", "R-CP", "R-MC", "R-WR", "R-DC", "R-GS", "R-HI", "R-EX"],
               "Decides: the default evaluate handler wraps every exception into EvaluationError(source = this object) chained with "
               "`from`, re-raising its own; all raises inside handlers are chained; only documented fall-through points catch "
               "EvaluationError and nothing else catches Exception; the only path into the memo dictionary is CacheSetRequest built in "
               "Cached.evaluate from a successful inner evaluation.",
               "the concrete cause chain for a given graph; outcomes of later evaluations",
               filters={"R-CP": ["store-after-compute"], "R-MC": ["writes", "constructs", "calls Cache.set"], "R-WR": ["__init_subclass__", "_evaluate_request", "directly"],
-                       "R-DC": ["cache layer", "cached"]}),
-    "C13": _p(["R-HO", "R-HF", "R-PI", "R-KC", "R-XA", "R-EO"],
+                       "R-DC": ["cache layer", "cached"], "R-HI": ["disabled"]}),
+    "C13": _p(["R-HO", "R-HF", "R-PI", "R-KC", "R-XA", "R-EO", "R-IS"],
               "Decides: the operand order of each helper step by symbolic beta-reduction of partial(f, …) against the documented "
               "behaviour; every option-valued helper parameter is handed to the step as an evaluated argument, not captured; "
               "PipelineStep/Pipeline/PartialApplication key and explain their parameters; __iter__ yields rest before tail, "
@@ -138,7 +142,7 @@ PROPS = {
               "associativity/identity of + over all bracketings (a structural induction, not attempted); transform values",
               filters={"R-KC": ["Pipeline", "PartialApplication", "Apply", "FunctionApplication", "EvaluatableArg", "EvaluatableKwargs"],
                        "R-XA": ["Pipeline", "PartialApplication", "Apply", "FunctionApplication", "EvaluatableArg", "EvaluatableKwargs"],
-                       "R-EO": ["Pipeline", "Apply", "PartialApplication"]}),
+                       "R-EO": ["Pipeline", "Apply", "PartialApplication", "Value.evaluate"], "R-IS": ["labrea.pipeline.", "labrea.application.", "labrea.types."]}),
     "C14": _p(["R-RE", "R-NR", "R-DF", "R-HI", "R-EX", "R-TI"],
               "Decides: the runtime to restore is saved per entry and per thread (re-entrancy), None is never stored in the "
               "thread->runtime table, run() falls back to the default table at call time and fails with TypeError otherwise, "
@@ -151,32 +155,34 @@ PROPS = {
               "state of shared runtime objects is per thread; cache entries addressed by fingerprint in all three operations.",
               "behaviour under interleavings — no schedule is explored (most of the property)",
               filters={"R-MC": ["key-is-fingerprint"]}),
-    "C16": _p(["R-VP", "R-SH", "R-DH", "R-L1", "R-DC", "R-RQ", "R-HI", "R-SK"],
+    "C16": _p(["R-VP", "R-SH", "R-DH", "R-L1", "R-DC", "R-RQ", "R-HI", "R-SK", "R-CP", "R-GS"],
               "Decides: no data flow from a switch, an effect result or a log result into any returned value; the three cache "
               "handlers test both switch spellings first and delegate to disabled twins that touch no backend; the effects switch "
               "selects between two terms containing the same calculation; exactly one log request per Logged.evaluate path, Logged "
               "inside cached.",
               "observed counts of recomputation and emitted records",
-              filters={"R-DC": ["effects", "calculation", "Logged"], "R-HI": ["handle", "disabled"]}),
-    "C17": _p(["R-CE", "R-CP"],
+              filters={"R-DC": ["effects", "calculation", "Logged"], "R-HI": ["handle", "disabled"], "R-CP": ["returns-retrieved-stored-or-computed"], "R-GS": ["labrea.cache", "labrea.logging", "labrea.computation"]}),
+    "C17": _p(["R-CE", "R-CP", "R-MC", "R-SO"],
               "Decides: CacheGetFailure cannot escape Cached.evaluate/validate, Cache.exists or the set/exists handlers through any "
               "resolved call chain; every return of Cached.evaluate is the retrieved, the stored-and-read-back or the freshly "
               "computed value; a failed get falls through to the computation; the set handler falls back to request.value.",
-              "backends that violate the Cache contract in other ways (other exception types)"),
-    "C18": _p(["R-WR", "R-RQ", "R-HD", "R-MP", "R-L1", "R-HI"],
+              "backends that violate the Cache contract in other ways (other exception types)",
+              filters={"R-MC": ["MemoryCache.get:a miss"], "R-SO": ["Coalesce"]}),
+    "C18": _p(["R-WR", "R-RQ", "R-HD", "R-MP", "R-L1", "R-HI", "R-MF"],
               "Decides nearly the whole mechanism: the four ABC hooks replace every op by a request-issuing wrapper and the default "
               "handlers call the saved implementation; nothing else calls the saved implementations; every concrete class defines "
               "plain methods; cache/log/type-check sites go through XRequest(...).run(); backends are called only by handlers; every "
               "request type has a default handler.",
               "third-party subclasses; that a pass-through handler changes no value",
-              filters={"R-MP": ["type request"], "R-HI": ["handle", "disabled"]}),
-    "C19": _p(["R-DK", "R-MF", "R-KC", "R-VA", "R-XA"],
+              filters={"R-MP": ["type request"], "R-HI": ["handle", "disabled"], "R-MF": ["set to its evaluation"]}),
+    "C19": _p(["R-DK", "R-MF", "R-KC", "R-VA", "R-XA", "R-WI", "R-EO"],
               "Decides: relevant options are read with dotted accessors; validate/keys/explain/instantiation enumerate members with "
               "the same source and predicate; __eq__ and __repr__ read the recorded relevant options; members are children for key "
               "coverage / validate / explain agreement.",
               "instance attribute values",
-              filters={"R-KC": ["_DatasetClassMeta"], "R-VA": ["_DatasetClassMeta"], "R-XA": ["_DatasetClassMeta"], "R-DK": ["datasetclass"]}),
-    "C20": _p(["R-PL", "R-PF", "R-GA"],
+              filters={"R-KC": ["_DatasetClassMeta"], "R-VA": ["_DatasetClassMeta"], "R-XA": ["_DatasetClassMeta"], "R-DK": ["datasetclass"],
+                       "R-WI": ["_DatasetClassMeta"], "R-EO": ["Value.evaluate"]}),
+    "C20": _p(["R-PL", "R-PF", "R-GA", "R-PK", "R-IS"],
               "Decides necessary conditions of picklability: every class holding a lock drops it in __getstate__ and re-creates it in "
               "__setstate__; node classes use default instance pickling (no __slots__); no wrapper object takes a decorated function's "
               "name while retaining the function without customising pickling; __getattr__ rejects private names before touching "
